@@ -383,6 +383,44 @@ pub fn ts_ops(persistent: bool, ttl: bool) -> Vec<Op> {
     v
 }
 
+/// Boundary arguments of every API variant (memory, TTL on): zero / huge TTLs,
+/// saturating deltas, extreme explicit timestamps combined with TTLs.
+pub fn wide_ops() -> Vec<Op> {
+    let a = 0u8;
+    vec![
+        Op::Get(a),
+        ins(a, V_X),
+        ins(a, V_CNT),
+        Op::Insert { k: a, v: V_Y, ts: 0, ttl: u64::MAX, bytes: false },
+        Op::Insert { k: a, v: V_Y, ts: u64::MAX, ttl: 5, bytes: false },
+        Op::Insert { k: a, v: V_X, ts: u64::MAX - 1, ttl: 1, bytes: true },
+        Op::Insert { k: a, v: V_X, ts: 1, ttl: 1, bytes: true },
+        Op::Insert { k: a, v: V_Y, ts: FUT, ttl: 1000, bytes: false },
+        Op::Cas { k: a, expect: V_X, new: V_Y, ts: u64::MAX, ttl: 0 },
+        Op::Cas { k: a, expect: V_X, new: V_CNT, ts: FUT, ttl: u64::MAX },
+        Op::Cas { k: a, expect: V_Y, new: V_X, ts: 1, ttl: 1 },
+        Op::Incr { k: a, delta: i64::MAX, ts: 0, ttl: 0 },
+        Op::Incr { k: a, delta: i64::MIN, ts: 0, ttl: 0 },
+        Op::Incr { k: a, delta: 1, ts: u64::MAX, ttl: 1 },
+        Op::Incr { k: a, delta: -1, ts: 0, ttl: u64::MAX },
+        Op::Incr { k: a, delta: 1, ts: 1, ttl: 0 },
+        Op::UpdateTtl { k: a, secs: u64::MAX },
+        Op::UpdateTtl { k: a, secs: 1 },
+        Op::Persist(a),
+        Op::GetTtl(a),
+        Op::Delete { k: a, ts: u64::MAX },
+        Op::Delete { k: a, ts: 1 },
+        Op::Delete { k: a, ts: 0 },
+        Op::Patch { k: a, p: 0, ts: u64::MAX },
+        Op::Ifa { k: a, v: V_CNT },
+        Op::Advance(0),
+        Op::Advance(3),
+        Op::Sweep,
+        Op::Range { lo: 0, hi: 3, limit: usize::MAX },
+        Op::Len,
+    ]
+}
+
 /// All sequential suites: (suite with its quick depth, thorough depth).
 pub fn all_suites(thorough: bool) -> Vec<Suite> {
     let d = |q: usize, t: usize| if thorough { t } else { q };
@@ -392,6 +430,14 @@ pub fn all_suites(thorough: bool) -> Vec<Suite> {
     let mut mt = Cfg::memory();
     mt.ttl = true;
     v.push(suite("mem-ttl", mt, std_tables(), ttl_ops(false), d(5, 6)));
+    v.push(suite("mem-wide", mt, std_tables(), wide_ops(), d(4, 5)));
+    {
+        let mut ops = wide_ops();
+        ops.push(Op::Flush);
+        ops.push(Op::Reopen);
+        v.push(suite("disk-wide-v3", disk(3, true, true), std_tables(), ops.clone(), d(3, 4)));
+        v.push(suite("disk-wide-v2", disk(2, false, true), std_tables(), ops, d(3, 4)));
+    }
     let mut ml = Cfg::memory();
     // room for one small record plus one 5000-byte record, not two big ones
     ml.max_memory = Some(2 * overhead + 2 + 5000 + 16);
